@@ -635,7 +635,11 @@ static void run_op(ArrWorld &w, const Op &op)
 	else if (n) c.violate("model", "typename:rc", strf("type name of invalid type %d is %s, expected NULL", t, n));
 	return;
     }
-    if (array_file_op(w.c, op, oi, w.obj, w.m, [&](int o2, const char *what) { compare_obj(w, o2, op, what); }, [&](int o2) { resync_obj(w, o2); })) return;
+    c.cb_installed = w.has_cb[oi];
+    c.restart_cb = -1;
+    bool handled = array_file_op(w.c, op, oi, w.obj, w.m, [&](int o2, const char *what) { compare_obj(w, o2, op, what); }, [&](int o2) { resync_obj(w, o2); });
+    if (c.restart_cb >= 0) for (int q = 0; q < NOBJ; ++q) w.has_cb[q] = c.restart_cb != 0;
+    if (handled) return;
     c.log("unknown op %s ignored", k.c_str());
 }
 
